@@ -89,6 +89,16 @@ func (x *Exec) execBody(fr *Frame, st *State) ([]Val, *State) {
 			}
 		}
 	}
+	if fr.fn == x.root && len(x.stack) == 1 {
+		// the root's exits are kept apart: postconditions are evaluated in each
+		// exit's own state (no ite-merged heaps in the goals)
+		x.rootExits = nil
+		for _, e := range exits {
+			if e.st.pc != "false" {
+				x.rootExits = append(x.rootExits, exitRec{e.st.clone(), e.rets})
+			}
+		}
+	}
 	if len(exits) == 0 {
 		return nil, nil
 	}
@@ -409,7 +419,9 @@ func (x *Exec) enterLoop(fr *Frame, lr *loopRec, st *State) *State {
 		q := x.S.Fresh("qr")
 		conds := []string{"(<= 1 " + q + ")", "(< " + q + " " + x.entry.nr + ")"}
 		for _, mr := range x.modRegs {
-			conds = append(conds, "(not (= "+q+" "+mr+"))")
+			if mr.key == x.te.HeapKey(t) {
+				conds = append(conds, "(not (= "+q+" "+mr.reg+"))")
+			}
 		}
 		x.assume(st, fmt.Sprintf("(forall ((%s Int)) (! (=> %s (= (select %s %s) (select %s %s))) :pattern ((select %s %s))))", q, And(conds...), nh, q, x.heap0(t), q, nh, q))
 	}
@@ -448,7 +460,17 @@ func clauseLabel(cl *Clause, j int) string {
 
 // frameFact: heap h agrees with the entry heap on the skolem region rf.
 func (x *Exec) frameFact(h string, t types.Type) string {
-	return "(= (select " + h + " " + x.rf + ") (select " + x.heap0(t) + " " + x.rf + "))"
+	eq := "(= (select " + h + " " + x.rf + ") (select " + x.heap0(t) + " " + x.rf + "))"
+	var ex []string
+	for _, mr := range x.modRegs {
+		if mr.key == x.te.HeapKey(t) {
+			ex = append(ex, "(not (= "+x.rf+" "+mr.reg+"))")
+		}
+	}
+	if len(ex) == 0 {
+		return eq
+	}
+	return Imp(And(ex...), eq)
 }
 
 // autoInvariants adds facts that hold for every Go loop of a recognised shape
